@@ -29,7 +29,7 @@ RULE = ("byte strings = valid encodings mutated at every field / truncated at ev
         "= distinct case line")
 
 VN_WRAPS = ["coap_ticks", "coap_socket_send", "coap_socket_recv"]
-STATES = ["fresh", "obs", "blk2", "blk1", "client", "osc", "qfresh", "qb1", "qb2", "cblk2", "cobs", "cq2", "wk"]
+STATES = ["fresh", "obs", "blk2", "blk1", "client", "osc", "qfresh", "qb1", "qb2", "cblk2", "cobs", "cq2", "wk", "idle"]
 
 
 def hostile_dgram(r, state):
@@ -37,12 +37,12 @@ def hostile_dgram(r, state):
     x = r.random()
     if x < 0.12:
         return gen_wire.rbytes(r, r.choice([0, 1, 2, 3, 4, 5, 6, 8, 13, 40]))
-    tok = {"obs": b"\xaa\xbb", "blk2": b"\xcc\xdd", "blk1": b"\xee\xff", "client": b"\x11\x22",
+    tok = {"obs": b"\xaa\xbb", "idle": b"\xaa\xbb", "blk2": b"\xcc\xdd", "blk1": b"\xee\xff", "client": b"\x11\x22",
            "cblk2": b"\x11\x22", "cobs": b"\x11\x22", "cq2": b"\x11\x22", "qb1": b"\xe1\xe2", "qb2": b"\xd1\xd2"}.get(
         state, bytes([r.randrange(256)]))
     if r.random() < 0.3:
         tok = gen_wire.rbytes(r, r.choice([0, 1, 2, 8]))
-    path = {"obs": b"obs", "blk2": b"big", "blk1": b"put", "qb1": b"put", "qb2": b"big"}.get(
+    path = {"obs": b"obs", "idle": b"obs", "blk2": b"big", "blk1": b"put", "qb1": b"put", "qb2": b"big"}.get(
         state, r.choice([b"canary", b"x", b"put", b"big", b"obs"]))
     is_client = state in ("client", "cblk2", "cobs", "cq2")
     mid = r.choice([0x1001, 0x1002, 0x1003, 0x1004, r.randrange(65536)])
@@ -109,7 +109,9 @@ def hostile_dgram(r, state):
         ty = r.choice([2, 1, 0, 0])
     if state == "wk":
         # GET /.well-known/core with hostile filters (the built-in handler parses the query)
-        q = r.choice([b"rt=", b"rt=*", b"=", b"href=%", b"title=\"", b"rt=a*", b"if=%2", b"%", b"*",
+        q = r.choice([b"rt=outdoor", b"rt=x", b"rt=temp*", b"rt=temperature-c", b"if=core.b", b"if=core.a",
+                      b"title=Ma%C3%9F [1]", b"title=x", b"obs", b"obs=1", b"ct=40", b"ct=4", b"rt=out", b"if=sensor core.b",
+                      b"rt=", b"rt=*", b"=", b"href=%", b"title=\"", b"rt=a*", b"if=%2", b"%", b"*",
                       b"href=/" + b"a" * r.choice([1, 100, 250]), b"rt=%41%", b"ct=40", b"anchor=" + gen_wire.rbytes(r, 4),
                       gen_wire.rbytes(r, r.choice([1, 3, 20]))])
         opts = [o for o in opts if o[0] not in (11, 15)] + [(11, b".well-known"), (11, b"core"), (15, q)]
@@ -289,7 +291,7 @@ def main(run):
     model = vlib.build_model()
     drv_asan = vlib.build_driver("h_wire", ["h_wire.c"], variant="asan")
     drv_base = vlib.build_driver("h_wire", ["h_wire.c"])
-    hz = vlib.build_driver("h_hostile", ["h_hostile.c"], variant="asan", wraps=VN_WRAPS)
+    hz = vlib.build_driver("h_hostile", ["h_hostile.c"], variant="asana", wraps=VN_WRAPS)
     asan_env = {"ASAN_OPTIONS": "detect_leaks=0:abort_on_error=1:allocator_may_return_null=1",
                 "UBSAN_OPTIONS": "halt_on_error=1:print_stacktrace=1", "VERIF_LOG_DEBUG": "1"}
     quick = run.tier == "quick"
@@ -375,12 +377,16 @@ def main(run):
             ds = block_sequence(r, 19 if st == "qfresh" else 27)
         else:
             ds = [hostile_dgram(r, st) for _ in range(r.choice([1, 1, 2, 3, 4, 6]))]
+        if st == "idle":
+            # every datagram from its own source port: sessions are created and the idle ones evicted
+            cases.append("hz %s %s" % (st, " ".join("s%d:%s" % (r.randrange(10), d.hex() if d else "-") for d in ds + ds[:3])))
+            continue
         cases.append("hz %s %s" % (st, " ".join(d.hex() if d else "-" for d in ds)))
     # reference verdict per datagram
     dl = []
     for c in cases:
         for h in c.split()[2:]:
-            dl.append("c02 udp " + h)
+            dl.append("c02 udp " + h.split(":")[-1])
     dv, _ = vlib.run_lines_robust(model, dl)
     out, crashes = run_cases_watchdog(hz, cases, asan_env)
     k = 0
@@ -437,7 +443,7 @@ def main(run):
     # streams C05 excludes: signalling Release/Abort followed by traffic, mutated frames, blind
     # bytes, oversize declarations, every kind of cut)
     import gen_stream
-    hs = vlib.build_driver("h_stream", ["h_stream.c"], variant="asan",
+    hs = vlib.build_driver("h_stream", ["h_stream.c"], variant="asana",
                            wraps=c05_wraps())
     r = tie.rng_for(run, "c02-tcp")
     tl = [ln for ln in vlib.read_corpus("C02") if ln.startswith("tcp ")]
